@@ -38,8 +38,9 @@ def twidth(T): return T[1] if T[0] == 'b' else TYPES[T[1]]['width']
 def tname(T):  return f'Bits{T[1]}' if T[0] == 'b' else T[1]
 
 class Sig:
-  def __init__(s, inst, name, kind, T, lst=None):
+  def __init__(s, inst, name, kind, T, lst=None, decl=True):
     s.inst, s.name, s.kind, s.T = inst, name, kind, T      # inst: tuple path of the owning component, () = top
+    s.decl = decl                                          # False: the signal is a member of an interface, declared by the interface
     s.lst = lst                                            # (list name, dims) when the signal is an element of a (multi-dim) list of signals
   @property
   def root(s): return 's' + ''.join('.' + x for x in s.inst) + '.' + s.name
@@ -126,6 +127,7 @@ def fits(sig, T, rng, nslices=3):
 class Inst:
   def __init__(s, path, cls):
     s.path, s.cls, s.sigs, s.children, s.parent = path, cls, [], [], None
+    s.ifc_decls = []                                       # text lines declaring interface instances
   def sig(s, name): return next(x for x in s.sigs if x.name == name)
 
 class Design:
@@ -144,7 +146,14 @@ class Design:
   def all_sigs(s):
     return [x for p in sorted(s.insts) for x in s.insts[p].sigs]
   def conns(s):
-    return [(h, st) for h in sorted(s.stmts) for st in s.stmts[h] if st[0] == 'conn']
+    """all signal-to-signal / signal-to-constant connections; an interface-level connect contributes its member-wise pairs"""
+    out = []
+    for h in sorted(s.stmts):
+      for st in s.stmts[h]:
+        if st[0] == 'conn': out.append((h, st))
+        elif st[0] == 'iconn':
+          out += [(h, ('conn', whole(a), whole(b))) for a, b in zip(st[1].leaves, st[2].leaves)]
+    return out
   def blocks(s):
     return [(h, st) for h in sorted(s.stmts) for st in s.stmts[h] if st[0] == 'blk']
 
@@ -152,13 +161,14 @@ class Design:
   def source(s, rng=None, orders=None, flips=None):
     """orders: {host: permutation of statement indices}; flips: {(host, idx): (swap sides, syntax)}"""
     rng = rng or random.Random(0)
-    out = [HDR]
+    out = [HDR] + list(getattr(s, 'extra_src', []))
     def emit(i):
       for c in i.children: emit(c)
       L = []
       declared = set()
       for x in i.sigs:
         ctor = {'in': 'InPort', 'out': 'OutPort', 'wire': 'Wire'}[x.kind]
+        if not x.decl: continue
         if x.lst is None:
           L.append(f's.{x.name} = {ctor}( {tname(x.T)} )')
         elif x.lst[0] not in declared:
@@ -166,6 +176,7 @@ class Design:
           txt = f'{ctor}( {tname(x.T)} )'
           for n in reversed(x.lst[1]): txt = f'[ {txt} for _ in range({n}) ]'
           L.append(f's.{x.lst[0]} = {txt}')
+      L += i.ifc_decls
       for c in i.children:
         L.append(f's.{c.path[-1]} = {c.cls}_{s.name}()')
       st = s.stmts[i.path]
@@ -184,6 +195,11 @@ class Design:
           first = b if swap else a
           if syn == 1 and lhs_ok(first, ta): L.append(f'{ta} //= {tb}')
           else: L.append(f'connect( {ta}, {tb} )')
+        elif t[0] == 'iconn':
+          fl = (flips or {}).get((i.path, k), (False, 0))
+          ta, tb = t[1].local(i.path), t[2].local(i.path)
+          if fl[0]: ta, tb = tb, ta
+          L.append(f'connect( {ta}, {tb} )')
         elif t[0] == 'func':
           L.append('@s.func'); L.append(f'def {t[1]}():'); L += ['  ' + l for l in t[2]]
         else:
@@ -223,6 +239,7 @@ class Design:
       o = list(range(len(st))); rng.shuffle(o); orders[h] = o
       for k, t in enumerate(st):
         if t[0] == 'conn': flips[(h, k)] = (rng.random() < 0.5, rng.choice([0, 0, 1]), nest(t[1]), nest(t[2]))
+        elif t[0] == 'iconn': flips[(h, k)] = (rng.random() < 0.5, 0)
     return orders, flips
 
   def edge_names(s, orders=None, flips=None):
@@ -233,9 +250,15 @@ class Design:
       st = s.stmts[h]
       for k in (orders or {}).get(h, range(len(st))):
         t = st[k]
+        sw = (flips or {}).get((h, k), (False, 0))[0]
+        if t[0] == 'iconn':
+          # connect( interface, interface ): by name, i.e. the member-wise pairs
+          for x, y in zip(t[1].leaves, t[2].leaves):
+            E.append((y.root, x.root, h) if sw else (x.root, y.root, h))
+          continue
         if t[0] != 'conn': continue
         a, b = t[1].full, t[2].full
-        if (flips or {}).get((h, k), (False, 0))[0]: a, b = b, a
+        if sw: a, b = b, a
         E.append((a, b, h))
     for p in sorted(s.insts):
       i = s.insts[p]
@@ -243,6 +266,89 @@ class Design:
         for n in ('clk', 'reset'):
           E.append((Sig(c.path, n, 'in', ('b', 1)).root, Sig(i.path, n, 'in', ('b', 1)).root, i.path))
     return E
+
+class IfcRef:
+  """one interface instance of a component: expr is 'recv' or 'recv[1]'; leaves = its member signals in a fixed order"""
+  def __init__(s, inst, expr, leaves): s.inst, s.expr, s.leaves = inst, expr, leaves
+  def local(s, host): return 's' + ''.join('.' + x for x in s.inst[len(host):]) + '.' + s.expr
+
+def gen_ifc_classes(rng, dname):
+  """a random interface class (scalar members, 1-D / 2-D / 3-D lists of signals, a nested interface, a list of nested
+  interfaces); returns (source text, leaf list [(relative name, T)])"""
+  import itertools
+  def members(pool, n):
+    out = [('en', ('b', 1), ())]
+    for k, dims in enumerate(rng.sample(pool, n)):
+      out.append((f'f{k}', rng.choice([('b', 4), ('b', 8)]), dims))
+    return out
+  inner = members([(3,), (2, 2), (2,)], 1)
+  outer = members([(3,), (2, 3), (3, 2), (2, 2, 2), (2,), (2, 2)], rng.randrange(1, 4))
+  if rng.random() < 0.4: outer.append(('st', ('s', rng.choice(['Pt', 'Sq'])), ()))
+  nested = [x for x in (('one', None), ('sub', 2)) if rng.random() < 0.65]
+  def cls_src(cname, mem, nest):
+    L = [f'class {cname}( Interface ):', '  def construct( s, out ):', '    P = OutPort if out else InPort']
+    for n, T, dims in mem:
+      txt = f'P( {tname(T)} )'
+      for d in reversed(dims): txt = f'[ {txt} for _ in range({d}) ]'
+      L.append(f'    s.{n} = {txt}')
+    for n, cnt in nest:
+      L.append(f'    s.{n} = Inner_{dname}( out )' if cnt is None else f'    s.{n} = [ Inner_{dname}( out ) for _ in range({cnt}) ]')
+    return '\n'.join(L) + '\n'
+  def leaves(mem, prefix):
+    out = []
+    for n, T, dims in mem:
+      for idx in itertools.product(*[range(d) for d in dims]):
+        out.append((prefix + n + ''.join(f'[{a}]' for a in idx), T))
+    return out
+  lv = leaves(outer, '')
+  for n, cnt in nested:
+    for k in ([None] if cnt is None else range(cnt)):
+      lv += leaves(inner, f'{n}.' if k is None else f'{n}[{k}].')
+  src = cls_src(f'Inner_{dname}', inner, []) + cls_src(f'Bus_{dname}', outer, nested)
+  return src, lv
+
+def add_interfaces(rng, d):
+  """gives the top and a chain of its descendants receive/send interfaces (scalar or lists of 2) and connects them at the
+  interface level, all legally: top.recv -> c.recv -> (pass through inside c, possibly via a grandchild) -> c.send -> next
+  child ... -> top.send.  Returns the member signals that are driven by these connections."""
+  src, lv = gen_ifc_classes(rng, d.name)
+  d.extra_src = [src]
+  n = rng.choice([None, None, 2])
+  top = d.insts[()]
+  chain = [c for c in top.children][:rng.choice([1, 1, 2])]
+  if not chain: return []
+  refs = {}
+  def give(i):
+    for nm, out in (('recv', False), ('send', True)):
+      i.ifc_decls.append(f's.{nm} = Bus_{d.name}( {out} )' if n is None else f's.{nm} = [ Bus_{d.name}( {out} ) for _ in range({n}) ]')
+      for k in ([None] if n is None else range(n)):
+        expr = nm if k is None else f'{nm}[{k}]'
+        sigs = [Sig(i.path, f'{expr}.{ln}', 'out' if out else 'in', T, decl=False) for ln, T in lv]
+        i.sigs += sigs
+        refs[(i.path, nm, k)] = IfcRef(i.path, expr, sigs)
+  give(top)
+  for c in chain: give(c)
+  driven = []
+  for k in ([None] if n is None else range(n)):
+    R = lambda i, nm: refs[(i.path, nm, k)]
+    prev = R(top, 'recv')
+    for c in chain:
+      d.stmts[()].append(('iconn', prev, R(c, 'recv')))
+      g = c.children[0] if c.children and rng.random() < 0.5 else None
+      if g is not None and (g.path, 'recv', k) not in refs and k in (None, 0): give(g)
+      if g is not None and (g.path, 'recv', k) in refs:
+        d.stmts[c.path].append(('iconn', R(c, 'recv'), R(g, 'recv')))
+        d.stmts[g.path].append(('iconn', R(g, 'recv'), R(g, 'send')))
+        d.stmts[c.path].append(('iconn', R(g, 'send'), R(c, 'send')))
+        driven += R(g, 'recv').leaves + R(g, 'send').leaves
+      else:
+        d.stmts[c.path].append(('iconn', R(c, 'send'), R(c, 'recv')))
+      driven += R(c, 'recv').leaves + R(c, 'send').leaves
+      prev = R(c, 'send')
+    d.stmts[()].append(('iconn', prev, R(top, 'send')))
+    driven += R(top, 'send').leaves
+  d.features.add('interface-connects' + ('' if n is None else ':lists-of-interfaces'))
+  return driven
 
 TYPE_POOL = [('b', 4), ('b', 8), ('b', 8), ('b', 16), ('b', 16), ('s', 'Pt'), ('s', 'Outer'), ('s', 'Mat'), ('s', 'Sq')]
 
